@@ -325,24 +325,29 @@ theorem Prov.setRing {T U : List Nat} {s : Sys} (h : Prov T U s) (t : Nat) (r : 
         exact ⟨h1, h2.natSet t r hr, h3, h4⟩
       · exact h
 
+theorem Prov.withG {T U : List Nat} {s : Sys} (h : Prov T U s) (g : Ghost) : Prov T U (s.withG g) :=
+  ⟨h.spans, h.adapters, h.threads, h.rxs, h.cyc, h.coll⟩
+
 theorem Prov.sendCmd {T U : List Nat} {s : Sys} (h : Prov T U s) (t : Nat) (cmd : Cmd) (forced : Bool) (hc : CmdOk T cmd) :
     Prov T U (s.sendCmd t cmd forced) := by
   unfold Sys.sendCmd
   cases hreg : s.register t with
-  | none => exact h
+  | none => exact h.withG _
   | some s1 =>
     dsimp only
     have h1 := h.register t hreg
     cases hring : s1.ringOf t with
-    | none => exact h1
+    | none => exact h1.withG _
     | some r =>
       dsimp only
       have hrq := h1.ringOf hring
       have hth := h1.threads t
       split
       · have := Ring.forceSend_all (CmdOk T) r (s1.th t).pending cmd hrq hth.2 hc
+        refine Prov.withG ?_ _
         exact (h1.setRing t _ this.1).setTh t _ ⟨hth.1, this.2⟩
       · have := Ring.send_all (CmdOk T) r (s1.th t).pending cmd hrq hth.2 hc
+        refine Prov.withG ?_ _
         exact (h1.setRing t _ this.1).setTh t _ ⟨hth.1, this.2⟩
 
 theorem Prov.submitSpans {T U : List Nat} {s : Sys} (h : Prov T U s) (t : Nat) (spans : SpanSet) (tok : Token)
